@@ -55,6 +55,9 @@ def run(chk, prog, tier):
                 if EFF.lvalue_root(strip(x, casts=True))[0] in cur + [p["name"] for p in prog.params(drv) if "char" in qtype(p)]:
                     chk.require(callee_name(c) == roles.line_parser, "CASE", "CASE/driver/%s" % callee_name(c), loc_str(c),
                                 "the driver hands the program text only to the line parser", "passed to %s" % callee_name(c))
+    # the spelling of one line cannot reach another: the per-line record is fresh for every line
+    from checks import C06
+    C06.fresh_record_rule(chk, prog, roles, rule="FRESH")
     # blanks / line ends: the scan never depends on the raw column; CR, LF and CRLF end a line and leave the rest for the next call
     from valib import scan as SC
     SC.column_independence_rule(chk, prog, roles)
